@@ -150,6 +150,10 @@ def _producer_case(draw, ctx):
         spec = draw(S.circuit_spec(min_inputs=1, max_inputs=5, min_gates=1, max_gates=9, max_fanin=6, max_insts=1))
     elif p in ("sequential_unroll",):
         spec = draw(S.circuit_spec(min_inputs=1, max_inputs=3, min_gates=1, max_gates=7, max_fanin=3))
+    elif p in ("add_subcircuit", "fill_blackbox"):
+        # children may themselves contain blackbox instances (nesting)
+        spec = draw(S.circuit_spec(min_inputs=1, max_inputs=4, min_gates=1, max_gates=8, max_fanin=4,
+                                   max_insts=draw(st.sampled_from([0, 1, 2]))))
     else:
         spec = draw(S.circuit_spec(min_inputs=1, max_inputs=4, min_gates=1, max_gates=8, max_fanin=4,
                                    single_output=(p == "supergates")))
